@@ -44,6 +44,29 @@ N = {
  "C19-b": ("search = linear scan over 16 entries + binary search whose Err index loses the offset", "inserting a new large key into a map with >= 17 entries"),
  "C20-a": ("EGraph::enodes returns a std HashSet (random seed) instead of the FxHashSet", "extraction tie-breaks among equal-cost leaves of one class; listing order of e-nodes"),
  "C20-b": ("group-compatible weak variants are deduplicated through a std HashMap whose values are returned", "a symmetric child class in an e-node with >= 2 weak-distinct variants and a pattern matching more than one"),
+ # ---- second round (variants c, d): agents were asked for changes that are hard to find by random testing with small inputs
+ "C02-c": ("move_to adds the inherited generators one by one and keeps only the last `grew` flag (= instead of |=)", "a dying class whose group has >= 2 generators the last of which is implied by the others (rotation of 3 slots), asserted before the merge, symmetric class the smaller one, position-sensitive users of the survivor inserted beforehand"),
+ "C02-d": ("determine_self_symmetries: after asserting a redundancy found through a variant it returns without re-running for the remaining variants", "an e-node using the same symmetric class >= 2 times, one argument already redundant in the parent class, the child's symmetry asserted afterwards; with two uses it depends on the enumeration order of the group"),
+ "C03-c": ("two cooperating sites: a rule application unions the matched class (not the re-instantiated left side) with the right side, and repeated pattern variables are compared by orbit membership instead of by the group", "a non-linear rule and a class with >= 4 slots whose group is transitive but not the full symmetric group; inert with explanations"),
+ "C03-d": ("two cooperating sites: add_internal refreshes bound slots of a shape only on a visible clash, get_syn_node's capture check is compiled only under explanations", "b[x := t] on a redex whose body has >= 2 nested binders with the inner body using the outer bound variable; inert with explanations"),
+ "C04-c": ("get_group_compatible_weak_variants enumerates the group permutations one child at a time (the product over several symmetric children is lost)", "an e-node with >= 2 children whose classes are symmetric, a pattern whose only match permutes both at once, a third asymmetric position"),
+ "C04-d": ("move_to drops the touched_class(to) after inheriting symmetries (same defect as C02-a, found independently)", "plant, then make a separate class symmetric, then merge it into the planted leaf's class; the matcher then misses instances through classes above it"),
+ "C06-c": ("Extractor::new counts unfinished child classes per usage after Vec::dedup() without sorting", "an e-node with >= 3 children in which one class occurs at non-adjacent positions, e.g. (t3 (v $x) c1 (v $y)); no language of the harness had a ternary operator before this change was seen"),
+ "C06-d": ("refresh_internals forgets to refresh bound slots when the node has redundant slots", "a class whose cheapest e-node is a binder with a redundant slot, extracted below another such binder or with a query argument literally named $0"),
+ "C07-c": ("move_to carries the dying class's generators over as (image, preimage): permutation stored with the proof of its inverse", "a non-involutive symmetry (3-cycle) on the dying side of a later union, then an explanation that uses the inherited symmetry"),
+ "C07-d": ("explain_equivalence computes t1's leader/proof before inserting t2 (same defect as C07-b, found independently)", "t2 never inserted, with fewer slots than t1's class, as the second argument"),
+ "C09-c": ("per-class cache of group permutations used by shape(), invalidated everywhere except in move_to", "a symmetric class with a parent, a second class with another symmetry merged into it (it survives), then the parent term re-inserted in an argument order that needs a new group element"),
+ "C09-d": ("group-compatible variants: early return also when the e-node has fewer than two public slots", "a symmetric class directly under a binder that binds one of the slots the symmetry moves, leaving at most one free"),
+ "C12-c": ("determine_self_symmetries returns instead of restarting after a variant proved a slot redundant (same site as C02-d, other condition)", "a 4-slot class with a redundant slot whose child receives the group {(x y),(z w)} in one step (merge of an already symmetric class)"),
+ "C12-d": ("handle_pending skips the congruence union when the colliding e-node is in the same class over the same slot set", "p(u(x,y)) = p(v(y,x)) asserted before u(x,y) = v(x,y): the collapse proves a symmetry that is dropped"),
+ "C13-c": ("shrink_slots keeps a generator only if it fixes every dropped slot; generators permuting dropped slots among themselves and kept slots are lost", "a class with >= 4 slots, one union with a doubly permuted copy, both extra slots dropped in one shrink step"),
+ "C13-d": ("shrink_slots skips a crossing generator that no longer crosses the further shrunk slot set", "group generated by (1 2)(3 4) and (3 4), exactly one of slots 3, 4 becoming redundant, hash order"),
+ "C14-c": ("new pending kind OnlyStructure for e-nodes moved by move_to, inserted blindly over an already pending analysis request", "one union that cascades in a single rebuild: X = {u(a), h(a,BIG)} merged by congruence into T = {h(b,BIG)} while a improves; hash order (1 of 4 operator names)"),
+ "C14-d": ("analysis_data reads the union-find entry with one hop instead of find_id", "two merges a -> b -> c in one rebuild with a parent of a processed last, or a handle merged away twice without a find in between; masked under checks"),
+ "C15-c": ("progress().sum_of_slots sums syn_slots (which never shrink)", "a round whose only effect is that a class loses a slot: three interacting rules, second round"),
+ "C15-d": ("Runner checks the node limit against the previous iteration's recorded count", ">= 3 iterations, the count exceeding the limit unnoticed and dropping below it again through congruence in the next iteration"),
+ "C20-c": ("group-compatible weak variants: above 8 variants deduplicated through a std HashMap (random seed)", "children whose symmetry groups multiply to > 8 variants in >= 2 weak shapes: a fully symmetric 4-slot class under a binder, e-matched"),
+ "C20-d": ("`use std::collections::HashSet` shadows the deterministic alias inside src/group", "a group with >= 2 generators moving the lowest slot to the same target (orbit >= 3), then a parent added / matched / extracted"),
 }
 for k, (summary, needs) in N.items():
     p = os.path.join(ROOT, "seeded", k, "meta.json")
